@@ -103,6 +103,37 @@ def run_case(case):
                 rad=(rad(z0) if callable(rad) else rad))
 
 
+def run_reuse(item):
+    """one Taylor object evaluated at a sequence of expansion points: every call is a fresh behaviour of TaylorFFT (the
+    search starts from Init: no direction, no counters) and returns, bit for bit, what a new object returns"""
+    vlib.use_repo()
+    from numdifftools import fornberg as fb, _verif
+    fi, n, pts, kw = item
+    name, f, exact, rad = fams()[fi]
+    out = []
+    try:
+        with np.errstate(all='ignore'):
+            T = fb.Taylor(f, n=n, full_output=True, **kw)
+            for z0 in pts:
+                del _verif.EVENTS[:]
+                c1, i1 = T(z0)
+                evs = [dict(e) for e in _verif.EVENTS]
+                c2, i2 = fb.Taylor(f, n=n, full_output=True, **kw)(z0)
+                it = [e for e in evs if e['ev'] == 'tay_iter']
+                end = [e for e in evs if e['ev'] == 'tay_end']
+                same = (np.asarray(c1).tobytes() == np.asarray(c2).tobytes() and np.asarray(i1.error_estimate).tobytes() == np.asarray(i2.error_estimate).tobytes()
+                        and (bool(i1.degenerate), bool(i1.failed), int(i1.iterations)) == (bool(i2.degenerate), bool(i2.failed), int(i2.iterations)))
+                out.append(dict(z0=[complex(z0).real, complex(z0).imag], same=bool(same), status=[bool(i1.degenerate), bool(i1.failed), int(i1.iterations)],
+                                fresh=[bool(i2.degenerate), bool(i2.failed), int(i2.iterations)],
+                                trace=dict(hd=dict(max_iter=end[0]['max_iter'], min_iter=end[0]['min_iter'], num_extrap=end[0]['num_extrap'],
+                                                   circles=end[0]['circles'], converged=end[0]['converged'], degenerate=end[0]['degenerate']),
+                                           ev=[dict(i=e['i'], converged=e['converged'], degenerate=e['degenerate'], needs_smaller=e['needs_smaller'],
+                                                    dirchg=e['dirchg'], numchg=e['numchg']) for e in it]) if len(end) == 1 else None))
+    except Exception as ex:
+        return dict(error='%s: %s' % (type(ex).__name__, str(ex)[:160]))
+    return dict(calls=out)
+
+
 def validate(traces):
     d = vlib.run_dir('Trace_Taylor-data')
     path = os.path.join(d, 'traces.json')
@@ -225,6 +256,27 @@ def run(tier, rep):
                 rep.violation(key, dict(case=name, k=k, error=o['err'][k], error_estimate=o['est'][k], floor=floor, exact_abs=o['exact'][k], R=o['R']),
                               '%s: coefficient %d is off by %.3g, error_estimate %.3g, FFT floor %.3g (|exact| = %.3g)' % (name, k, o['err'][k], o['est'][k], floor, o['exact'][k]))
                 break
+    # one object reused over several expansion points
+    rndr = random.Random(seed + 5)
+    Fl = fams()
+    ritems = []
+    for k in range(12 if tier == 'quick' else 80):
+        fi = rndr.randrange(len(Fl))
+        pts = [rndr.choice([0.0, 0.5, -1.0, 1j, 0.3 - 0.7j, 1 + 1j, 0.25]) for _ in range(5)]
+        ritems.append((fi, rndr.choice([4, 6, 12, 20]), pts, rndr.choice([{}, {}, dict(r=1e-3, step_ratio=2.0, num_extrap=2)])))
+    for it_, o in zip(ritems, vlib.pool_map(run_reuse, ritems, chunksize=1)):
+        nm = 'Taylor object reused: %s n=%d %s' % (Fl[it_[0]][0], it_[1], it_[3] or 'default')
+        if 'error' in o:
+            rep.violation('reuse-raises', dict(case=nm), '%s raised %s' % (nm, o['error']))
+            continue
+        for j, c in enumerate(o['calls']):
+            if not c['same']:
+                rep.violation('reuse', dict(case=nm, call=j + 1, z0=c['z0'], status=c['status'], fresh=c['fresh']),
+                              '%s: call %d at z0=%s returns (degenerate, failed, iterations) = %s, a new object %s (coefficients or estimates differ)' % (nm, j + 1, c['z0'], c['status'], c['fresh']))
+                break
+            if c['trace']:
+                traces.append(c['trace'])
+                owners.append('%s, call %d' % (nm, j + 1))
     tres, accepted = validate(traces)
     for j, nm in enumerate(owners, 1):
         if j not in accepted:
